@@ -265,7 +265,7 @@ func ladder(r *engine.Rec) {
 			}
 			return i
 		},
-		"ascending-stretches-of-17": func(n, i int) int { return i % 17 },
+		"ascending-stretches-of-17":  func(n, i int) int { return i % 17 },
 		"descending-stretches-of-19": func(n, i int) int { return 19 - i%19 },
 		"two-interleaved-runs":       func(n, i int) int { return (i%2)*n + i/2 },
 		"pseudo-random":              func(n, i int) int { return (i*7919 + 13) % (n + 3) },
